@@ -1,12 +1,680 @@
+// Harness for C18: drives the real MergeResults of DevsAnalysis, CouplesAnalysis and BurndownAnalysis
+// (package leaves) and CommonAnalysisResult.Merge with generated pairs of results and records the
+// inputs, the identity table the merge worked with and the merged result.
 package main
 
 import (
+	"bytes"
 	"fmt"
+	"os"
+	"os/exec"
+	"runtime"
+	"sort"
+	"strconv"
+	"strings"
+	"time"
 
+	"gopkg.in/src-d/hercules.v10"
 	"gopkg.in/src-d/hercules.v10/leaves"
+	. "verifharness/lib"
 )
 
+// ---------------------------------------------------------------------------------------------
+// plain-data images of the inputs (what the trace holds)
+
+type Common struct {
+	Begin, End int64
+	Commits    int
+	Runtime    int64
+	Items      []string
+	ItemsNil   bool
+}
+
+type LS struct{ A, R, C int }
+type Lang struct {
+	Name string
+	LS
+}
+type DevEntry struct {
+	Dev, Commits int
+	LS
+	Langs []Lang
+}
+type TickEntry struct {
+	Tick int
+	Devs []DevEntry
+}
+type Devs struct {
+	People   []string
+	TickSize int64
+	Ticks    []TickEntry
+}
+type KV struct {
+	K int
+	V int64
+}
+type Couples struct {
+	People, Files []string
+	Lines         []int
+	PF            [][]int
+	PM, FM        [][]KV
+}
+type Burndown struct {
+	People                []string
+	TickSize              int64
+	Sampling, Granularity int
+	Global                [][]int64
+	PH                    [][][]int64
+	PM                    [][]int64
+}
+
+// ---------------------------------------------------------------------------------------------
+// S-expressions
+
+func S(s string) Sx { return A("\"" + s + "\"") }
+func Strs(tag string, l []string) Sx {
+	xs := make([]Sx, len(l))
+	for i, s := range l {
+		xs[i] = S(s)
+	}
+	return T(tag, xs...)
+}
+func unS(x Sx) string {
+	a := x.Atom
+	if len(a) < 2 || a[0] != '"' || a[len(a)-1] != '"' {
+		panic("not a string atom: " + x.String())
+	}
+	return a[1 : len(a)-1]
+}
+func unStrs(x Sx) []string {
+	res := []string{}
+	for _, a := range x.Args() {
+		res = append(res, unS(a))
+	}
+	return res
+}
+func i64(x Sx) int64 {
+	v, err := strconv.ParseInt(x.Atom, 10, 64)
+	if err != nil {
+		panic("not an int64: " + x.String())
+	}
+	return v
+}
+func must(x Sx, tag string) Sx {
+	f, ok := x.Field(tag)
+	if !ok {
+		panic("missing field " + tag + " in " + x.String())
+	}
+	return f
+}
+
+func (c Common) sx(tag string) Sx {
+	items := []Sx{B(!c.ItemsNil)}
+	for _, s := range c.Items {
+		items = append(items, S(s))
+	}
+	return T(tag, I64(c.Begin), I64(c.End), I(c.Commits), I64(c.Runtime), T("items", items...))
+}
+func parseCommon(x Sx) Common {
+	a := x.Args()
+	c := Common{Begin: i64(a[0]), End: i64(a[1]), Commits: a[2].Int(), Runtime: i64(a[3])}
+	it := a[4].Args()
+	c.ItemsNil = it[0].Atom == "0"
+	for _, s := range it[1:] {
+		c.Items = append(c.Items, unS(s))
+	}
+	return c
+}
+func (c Common) build() *hercules.CommonAnalysisResult {
+	r := &hercules.CommonAnalysisResult{BeginTime: c.Begin, EndTime: c.End, CommitsNumber: c.Commits,
+		RunTime: time.Duration(c.Runtime)}
+	if !c.ItemsNil {
+		r.RunTimePerItem = map[string]float64{}
+		for _, k := range c.Items {
+			r.RunTimePerItem[k] = 1
+		}
+	}
+	return r
+}
+func commonOut(r *hercules.CommonAnalysisResult) Sx {
+	c := Common{Begin: r.BeginTime, End: r.EndTime, Commits: r.CommitsNumber, Runtime: int64(r.RunTime),
+		ItemsNil: r.RunTimePerItem == nil}
+	for k := range r.RunTimePerItem {
+		c.Items = append(c.Items, k)
+	}
+	sort.Strings(c.Items)
+	return c.sx("c")
+}
+
+func (d Devs) sx() Sx {
+	ticks := make([]Sx, len(d.Ticks))
+	for i, t := range d.Ticks {
+		devs := []Sx{I(t.Tick)}
+		for _, e := range t.Devs {
+			de := []Sx{I(e.Dev), I(e.Commits), I(e.A), I(e.R), I(e.C)}
+			for _, l := range e.Langs {
+				de = append(de, L(S(l.Name), I(l.A), I(l.R), I(l.C)))
+			}
+			devs = append(devs, L(de...))
+		}
+		ticks[i] = L(devs...)
+	}
+	return T("devs", Strs("people", d.People), T("ticksize", I64(d.TickSize)), T("ticks", ticks...))
+}
+func parseDevs(x Sx) Devs {
+	d := Devs{People: unStrs(must(x, "people")), TickSize: i64(must(x, "ticksize").Args()[0])}
+	for _, t := range must(x, "ticks").Args() {
+		te := TickEntry{Tick: t.List[0].Int()}
+		for _, e := range t.List[1:] {
+			de := DevEntry{Dev: e.List[0].Int(), Commits: e.List[1].Int(),
+				LS: LS{e.List[2].Int(), e.List[3].Int(), e.List[4].Int()}}
+			for _, l := range e.List[5:] {
+				de.Langs = append(de.Langs, Lang{unS(l.List[0]), LS{l.List[1].Int(), l.List[2].Int(), l.List[3].Int()}})
+			}
+			te.Devs = append(te.Devs, de)
+		}
+		d.Ticks = append(d.Ticks, te)
+	}
+	return d
+}
+func (d Devs) build() leaves.DevsResult {
+	ticks := map[int]map[int]*leaves.DevTick{}
+	for _, t := range d.Ticks {
+		m := map[int]*leaves.DevTick{}
+		for _, e := range t.Devs {
+			var langs []leaves.VerifC18Lang
+			for _, l := range e.Langs {
+				langs = append(langs, leaves.VerifC18Lang{Name: l.Name, Added: l.A, Removed: l.R, Changed: l.C})
+			}
+			m[e.Dev] = leaves.VerifC18NewDevTick(e.Commits, e.A, e.R, e.C, langs)
+		}
+		ticks[t.Tick] = m
+	}
+	return leaves.VerifC18NewDevsResult(ticks, append([]string{}, d.People...), time.Duration(d.TickSize))
+}
+func devsOut(r leaves.DevsResult) Sx {
+	people, ts := leaves.VerifC18DevsResultFields(r)
+	d := Devs{People: people, TickSize: int64(ts)}
+	var tks []int
+	for t := range r.Ticks {
+		tks = append(tks, t)
+	}
+	sort.Ints(tks)
+	for _, t := range tks {
+		te := TickEntry{Tick: t}
+		var dvs []int
+		for dv := range r.Ticks[t] {
+			dvs = append(dvs, dv)
+		}
+		sort.Ints(dvs)
+		for _, dv := range dvs {
+			s := r.Ticks[t][dv]
+			de := DevEntry{Dev: dv, Commits: s.Commits, LS: LS{s.Added, s.Removed, s.Changed}}
+			var ls []string
+			for l := range s.Languages {
+				ls = append(ls, l)
+			}
+			sort.Strings(ls)
+			for _, l := range ls {
+				v := s.Languages[l]
+				de.Langs = append(de.Langs, Lang{l, LS{v.Added, v.Removed, v.Changed}})
+			}
+			te.Devs = append(te.Devs, de)
+		}
+		d.Ticks = append(d.Ticks, te)
+	}
+	return d.sx()
+}
+
+func kvRows(tag string, rows [][]KV) Sx {
+	xs := make([]Sx, len(rows))
+	for i, r := range rows {
+		ys := make([]Sx, len(r))
+		for j, kv := range r {
+			ys[j] = L(I(kv.K), I64(kv.V))
+		}
+		xs[i] = L(ys...)
+	}
+	return T(tag, xs...)
+}
+func parseKVRows(x Sx) [][]KV {
+	res := [][]KV{}
+	for _, r := range x.Args() {
+		row := []KV{}
+		for _, kv := range r.List {
+			row = append(row, KV{kv.List[0].Int(), i64(kv.List[1])})
+		}
+		res = append(res, row)
+	}
+	return res
+}
+func intRows(tag string, rows [][]int) Sx {
+	xs := make([]Sx, len(rows))
+	for i, r := range rows {
+		xs[i] = Ints(r)
+	}
+	return T(tag, xs...)
+}
+func parseInts(x Sx) []int {
+	res := []int{}
+	for _, a := range x.List {
+		res = append(res, a.Int())
+	}
+	return res
+}
+func (c Couples) sx() Sx {
+	return T("couples", Strs("people", c.People), Strs("files", c.Files), T("lines", Ints(c.Lines).List...),
+		intRows("pf", c.PF), kvRows("pm", c.PM), kvRows("fm", c.FM))
+}
+func parseCouples(x Sx) Couples {
+	c := Couples{People: unStrs(must(x, "people")), Files: unStrs(must(x, "files"))}
+	c.Lines = parseInts(Sx{List: must(x, "lines").Args(), IsL: true})
+	c.PF = [][]int{}
+	for _, r := range must(x, "pf").Args() {
+		c.PF = append(c.PF, parseInts(r))
+	}
+	c.PM = parseKVRows(must(x, "pm"))
+	c.FM = parseKVRows(must(x, "fm"))
+	return c
+}
+func buildKV(rows [][]KV) []map[int]int64 {
+	res := make([]map[int]int64, len(rows))
+	for i, r := range rows {
+		res[i] = map[int]int64{}
+		for _, kv := range r {
+			res[i][kv.K] = kv.V
+		}
+	}
+	return res
+}
+func (c Couples) build() leaves.CouplesResult {
+	pf := make([][]int, len(c.PF))
+	for i, r := range c.PF {
+		pf[i] = append([]int{}, r...)
+	}
+	return leaves.VerifC18NewCouplesResult(buildKV(c.PM), pf, buildKV(c.FM), append([]int{}, c.Lines...),
+		append([]string{}, c.Files...), append([]string{}, c.People...))
+}
+func kvOut(rows []map[int]int64) [][]KV {
+	res := make([][]KV, len(rows))
+	for i, m := range rows {
+		var ks []int
+		for k := range m {
+			ks = append(ks, k)
+		}
+		sort.Ints(ks)
+		res[i] = []KV{}
+		for _, k := range ks {
+			res[i] = append(res[i], KV{k, m[k]})
+		}
+	}
+	return res
+}
+func couplesOut(r leaves.CouplesResult) Sx {
+	c := Couples{People: leaves.VerifC18CouplesResultPeople(r), Files: r.Files, Lines: r.FilesLines,
+		PF: r.PeopleFiles, PM: kvOut(r.PeopleMatrix), FM: kvOut(r.FilesMatrix)}
+	return c.sx()
+}
+
+func matSx(m [][]int64) Sx {
+	xs := make([]Sx, len(m))
+	for i, r := range m {
+		ys := make([]Sx, len(r))
+		for j, v := range r {
+			ys[j] = I64(v)
+		}
+		xs[i] = L(ys...)
+	}
+	return L(xs...)
+}
+func parseMat(x Sx) [][]int64 {
+	res := [][]int64{}
+	for _, r := range x.List {
+		row := []int64{}
+		for _, v := range r.List {
+			row = append(row, i64(v))
+		}
+		res = append(res, row)
+	}
+	return res
+}
+func (b Burndown) sx() Sx {
+	ph := make([]Sx, len(b.PH))
+	for i, m := range b.PH {
+		ph[i] = matSx(m)
+	}
+	return T("burndown", Strs("people", b.People), T("ticksize", I64(b.TickSize)), T("sampling", I(b.Sampling)),
+		T("granularity", I(b.Granularity)), T("global", matSx(b.Global)), T("ph", ph...), T("pm", matSx(b.PM)))
+}
+func parseBurndown(x Sx) Burndown {
+	b := Burndown{People: unStrs(must(x, "people")), TickSize: i64(must(x, "ticksize").Args()[0]),
+		Sampling: must(x, "sampling").Args()[0].Int(), Granularity: must(x, "granularity").Args()[0].Int()}
+	b.Global = parseMat(must(x, "global").Args()[0])
+	for _, m := range must(x, "ph").Args() {
+		b.PH = append(b.PH, parseMat(m))
+	}
+	b.PM = parseMat(must(x, "pm").Args()[0])
+	return b
+}
+func copyMat(m [][]int64) leaves.DenseHistory {
+	if len(m) == 0 {
+		return nil
+	}
+	res := make(leaves.DenseHistory, len(m))
+	for i, r := range m {
+		res[i] = make([]int64, len(r)) // cap = len
+		copy(res[i], r)
+	}
+	return res
+}
+func (b Burndown) build() leaves.BurndownResult {
+	var ph []leaves.DenseHistory
+	for _, m := range b.PH {
+		ph = append(ph, copyMat(m))
+	}
+	return leaves.VerifC18NewBurndownResult(copyMat(b.Global), map[string]leaves.DenseHistory{}, map[string]map[int]int{},
+		ph, copyMat(b.PM), append([]string{}, b.People...), time.Duration(b.TickSize), b.Sampling, b.Granularity)
+}
+
+// code of a history: the sum of its last row (see coq/theories/Combine/Spec.v [code])
+func code(m leaves.DenseHistory) int64 {
+	if len(m) == 0 {
+		return 0
+	}
+	var s int64
+	for _, v := range m[len(m)-1] {
+		s += v
+	}
+	return s
+}
+func burndownOut(r leaves.BurndownResult) Sx {
+	people, ts, sampling, granularity := leaves.VerifC18BurndownResultFields(r)
+	codes := make([]Sx, len(r.PeopleHistories))
+	for i, m := range r.PeopleHistories {
+		codes[i] = I64(code(m))
+	}
+	pm := make([][]int64, len(r.PeopleMatrix))
+	for i, row := range r.PeopleMatrix {
+		pm[i] = row
+	}
+	return T("bdout", Strs("people", people), T("ticksize", I64(int64(ts))), T("sampling", I(sampling)),
+		T("granularity", I(granularity)), T("global", B(len(r.GlobalHistory) > 0), I64(code(r.GlobalHistory))),
+		T("phcodes", codes...), T("pm", matSx(pm)), T("files", I(len(r.FileHistories)+len(r.FileOwnership))))
+}
+
+// ---------------------------------------------------------------------------------------------
+// observation
+
+func tableSx(tag string, tab []leaves.VerifC18MergedIndex, merged []string) Sx {
+	sort.Slice(tab, func(i, j int) bool { return tab[i].Key < tab[j].Key })
+	es := make([]Sx, len(tab))
+	for i, e := range tab {
+		es[i] = L(S(e.Key), I(e.Final), I(e.First), I(e.Second))
+	}
+	return T(tag, T("entries", es...), Strs("merged", merged))
+}
+
+func idTable(rd1, rd2 []string) Sx {
+	tab, merged := leaves.VerifC18MergeIdentities(rd1, rd2)
+	return tableSx("idtab", tab, merged)
+}
+
+type input struct {
+	an     string // devs | couples | burndown | common
+	c1, c2 Common
+	dv     [2]Devs
+	cp     [2]Couples
+	bd     [2]Burndown
+}
+
+func (in input) fields() []Sx {
+	fs := []Sx{T("an", A(in.an)), in.c1.sx("c1"), in.c2.sx("c2")}
+	switch in.an {
+	case "devs":
+		fs = append(fs, T("r1", in.dv[0].sx()), T("r2", in.dv[1].sx()))
+	case "couples":
+		fs = append(fs, T("r1", in.cp[0].sx()), T("r2", in.cp[1].sx()))
+	case "burndown":
+		fs = append(fs, T("r1", in.bd[0].sx()), T("r2", in.bd[1].sx()))
+	}
+	return fs
+}
+
+func parseInput(cs Sx) input {
+	in := input{an: must(cs, "an").Args()[0].Atom}
+	in.c1 = parseCommon(must(cs, "c1"))
+	in.c2 = parseCommon(must(cs, "c2"))
+	switch in.an {
+	case "devs":
+		in.dv[0] = parseDevs(must(cs, "r1").Args()[0])
+		in.dv[1] = parseDevs(must(cs, "r2").Args()[0])
+	case "couples":
+		in.cp[0] = parseCouples(must(cs, "r1").Args()[0])
+		in.cp[1] = parseCouples(must(cs, "r2").Args()[0])
+	case "burndown":
+		in.bd[0] = parseBurndown(must(cs, "r1").Args()[0])
+		in.bd[1] = parseBurndown(must(cs, "r2").Args()[0])
+	}
+	return in
+}
+
+func (in input) people() ([]string, []string) {
+	switch in.an {
+	case "devs":
+		return in.dv[0].People, in.dv[1].People
+	case "couples":
+		return in.cp[0].People, in.cp[1].People
+	case "burndown":
+		return in.bd[0].People, in.bd[1].People
+	}
+	return nil, nil
+}
+
+// observe runs the real code on one input (in this process).
+func observe(in input) []Sx {
+	if in.an == "common" {
+		c1, c2 := in.c1.build(), in.c2.build()
+		_, p := Catch(func() { c1.Merge(c2) })
+		if p {
+			return []Sx{T("out", T("panic"))}
+		}
+		return []Sx{T("out", T("ok", commonOut(c1)))}
+	}
+	rd1, rd2 := in.people()
+	obs := []Sx{idTable(rd1, rd2)}
+	var res interface{}
+	c1, c2 := in.c1.build(), in.c2.build()
+	baseline := runtime.NumGoroutine()
+	_, p := Catch(func() {
+		switch in.an {
+		case "devs":
+			res = (&leaves.DevsAnalysis{}).MergeResults(in.dv[0].build(), in.dv[1].build(), c1, c2)
+		case "couples":
+			res = (&leaves.CouplesAnalysis{}).MergeResults(in.cp[0].build(), in.cp[1].build(), c1, c2)
+		case "burndown":
+			res = (&leaves.BurndownAnalysis{}).MergeResults(in.bd[0].build(), in.bd[1].build(), c1, c2)
+		}
+	})
+	if p {
+		return append(obs, T("out", T("panic")))
+	}
+	// BurndownAnalysis.MergeResults works in goroutines whose deferred wg.Done() also runs while they are
+	// panicking: the call can return although the process is about to die.  A panicking goroutine never
+	// finishes, so wait until all workers are gone before the result is trusted.
+	for deadline := time.Now().Add(10 * time.Second); runtime.NumGoroutine() > baseline; {
+		if time.Now().After(deadline) {
+			panic("worker goroutines of MergeResults did not finish")
+		}
+		time.Sleep(20 * time.Microsecond)
+	}
+	switch r := res.(type) {
+	case error:
+		_ = r
+		obs = append(obs, T("out", T("tickerr")))
+	case leaves.DevsResult:
+		obs = append(obs, T("out", T("ok", devsOut(r))))
+	case leaves.CouplesResult:
+		ftab, fmerged := leaves.VerifC18MergeLiteral(in.cp[0].Files, in.cp[1].Files)
+		obs = append(obs, tableSx("filetab", ftab, fmerged), T("out", T("ok", couplesOut(r))))
+	case leaves.BurndownResult:
+		obs = append(obs, T("out", T("ok", burndownOut(r))))
+	default:
+		panic(fmt.Sprintf("unexpected result type %T", res))
+	}
+	return obs
+}
+
+// bdSafe tells whether BurndownAnalysis.MergeResults can be run in this process: its worker goroutines
+// must not panic (a panic in a goroutine cannot be recovered by the caller and kills the process).
+func bdSafe(in input) bool {
+	b1, b2 := in.bd[0], in.bd[1]
+	if b1.TickSize != b2.TickSize {
+		return true // error return before anything is started
+	}
+	if in.c1.End == 0 || in.c2.Begin == 0 || in.c1.Begin <= 0 || in.c2.End <= 0 ||
+		in.c1.End <= in.c1.Begin || in.c2.End <= in.c2.Begin {
+		return false
+	}
+	for _, m := range append(append([][][]int64{b1.Global, b2.Global}, b1.PH...), b2.PH...) {
+		if !(len(m) == 0 || (len(m) == 1 && len(m[0]) == 1)) {
+			return false
+		}
+	}
+	anyHist := len(b1.Global) > 0 || len(b2.Global) > 0 || len(b1.PH) > 0 || len(b2.PH) > 0
+	if anyHist && (b1.Sampling != 1 || b2.Sampling != 1 || b1.Granularity != 1 || b2.Granularity != 1) {
+		return false
+	}
+	if anyHist && (b1.TickSize <= 0 || b1.TickSize%int64(time.Second) != 0) {
+		return false
+	}
+	tab, merged := leaves.VerifC18MergeIdentities(b1.People, b2.People)
+	look := map[string]leaves.VerifC18MergedIndex{}
+	for _, e := range tab {
+		look[e.Key] = e
+	}
+	if len(merged) == 0 {
+		return true
+	}
+	if len(b1.PH) > 0 || len(b2.PH) > 0 {
+		for _, key := range merged {
+			p := look[key]
+			if p.First >= len(b1.PH) || p.Second >= len(b2.PH) {
+				return false
+			}
+		}
+	}
+	if len(b2.PM) > 0 {
+		check := func(rd []string, pm [][]int64) bool {
+			for i, key := range rd {
+				if look[key].Final >= len(merged) || i >= len(pm) || len(pm[i]) < 2 || len(pm[i])-2 > len(rd) {
+					return false
+				}
+			}
+			return true
+		}
+		if !check(b1.People, b1.PM) || !check(b2.People, b2.PM) {
+			return false
+		}
+	}
+	return true
+}
+
+var isChild bool
+
+// isolated runs one case in a child process; a crash of the child is a panic of the implementation.
+func isolated(in input) []Sx {
+	tmp, err := os.CreateTemp("", "c18-iso-*.txt")
+	if err != nil {
+		panic(err)
+	}
+	defer os.Remove(tmp.Name())
+	out := tmp.Name() + ".out"
+	defer os.Remove(out)
+	l := append([]Sx{A("case"), I(0)}, in.fields()...)
+	tmp.WriteString(Sx{List: l, IsL: true}.String() + "\n")
+	tmp.Close()
+	cmd := exec.Command(os.Args[0], "-child", "-replay", tmp.Name(), "-out", out)
+	var stderr bytes.Buffer
+	cmd.Stderr = &stderr
+	err = cmd.Run()
+	if err != nil {
+		msg := stderr.String()
+		if strings.Contains(msg, "panic:") || strings.Contains(msg, "fatal error:") {
+			rd1, rd2 := in.people()
+			return []Sx{idTable(rd1, rd2), T("out", T("panic"))}
+		}
+		fmt.Fprintln(os.Stderr, "child failed:", err, msg)
+		os.Exit(2)
+	}
+	data, err := os.ReadFile(out)
+	if err != nil {
+		panic(err)
+	}
+	sx, err := ParseSx(strings.TrimSpace(string(data)))
+	if err != nil {
+		panic(err)
+	}
+	return must(sx, "obs").Args()
+}
+
+var nIsolated int
+
+func run(in input) []Sx {
+	if in.an == "burndown" && !isChild && !bdSafe(in) {
+		nIsolated++
+		return isolated(in)
+	}
+	return observe(in)
+}
+
+func nonTrivial(in input) bool {
+	rd1, rd2 := in.people()
+	switch in.an {
+	case "common":
+		return true
+	case "devs":
+		return len(rd1) > 0 && len(rd2) > 0 && len(in.dv[0].Ticks) > 0 && len(in.dv[1].Ticks) > 0
+	case "couples":
+		return len(rd1) > 0 && len(rd2) > 0 && len(in.cp[0].Files) > 0 && len(in.cp[1].Files) > 0
+	case "burndown":
+		return len(rd1) > 0 && len(rd2) > 0
+	}
+	return false
+}
+
+func emit(c *Config, kind string, in input) {
+	obs := run(in)
+	fs := []Sx{T("kind", A(kind)), T("nt", B(nonTrivial(in)))}
+	fs = append(fs, in.fields()...)
+	fs = append(fs, T("obs", obs...))
+	c.Emit(fs...)
+}
+
 func main() {
-	t, m := leaves.VerifC18MergeIdentities([]string{"b|b@b", "a|x@y"}, []string{"a|z@w"})
-	fmt.Println(t, m)
+	// "-child" must be removed before lib.Setup parses the common flags
+	args := []string{os.Args[0]}
+	for _, a := range os.Args[1:] {
+		if a == "-child" {
+			isChild = true
+		} else {
+			args = append(args, a)
+		}
+	}
+	os.Args = args
+	c := Setup()
+	defer c.Close()
+	if c.Replay != "" {
+		for _, cs := range c.ReplayCases() {
+			kind := "replay"
+			if k, ok := cs.Field("kind"); ok {
+				kind = k.Args()[0].Atom
+			}
+			emit(c, kind, parseInput(cs))
+		}
+		return
+	}
+	generate(c)
+	if os.Getenv("C18_DEBUG") != "" {
+		fmt.Fprintln(os.Stderr, "isolated cases:", nIsolated)
+	}
 }
